@@ -60,7 +60,7 @@ func startServer(dir string) (*server, error) {
 			last = err
 			continue
 		}
-		s := &server{cmd: cmd, port: port, errLog: errLog, client: &http.Client{Timeout: 20 * time.Second}}
+		s := &server{cmd: cmd, port: port, errLog: errLog, client: &http.Client{Timeout: 8 * time.Second}}
 		up := false
 		for i := 0; i < 100; i++ {
 			time.Sleep(50 * time.Millisecond)
